@@ -87,6 +87,15 @@ def main():
     os.makedirs(dst, exist_ok=True)
     shutil.copy(patch, os.path.join(dst, "patch.diff"))
     shutil.copy(demo, os.path.join(dst, "demo.py"))
+    prev = os.path.join(dst, "meta.json")
+    earlier = []
+    if os.path.exists(prev):
+        try:
+            pm = json.load(open(prev))
+            earlier = pm.get("earlier_runs", []) + [{"checks_run": pm.get("checks_run"), "caught_by": pm.get("caught_by")}]
+        except Exception:        # noqa: BLE001
+            pass
+    meta["earlier_runs"] = earlier      # runs before the checks were strengthened (most recent last)
     meta["breaks_property"] = home
     meta["confirmed_by_verifier"] = rec["confirmed"]
     meta["checks_run"] = rec["checks"]
